@@ -8,6 +8,7 @@ import (
 	"os/exec"
 	"path/filepath"
 	"regexp"
+	"sort"
 	"strings"
 
 	"github.com/goreleaser/nfpm/v2"
@@ -52,6 +53,9 @@ func validateSchema(root map[string]any, node map[string]any, doc any, path stri
 			errs = append(errs, fmt.Sprintf("%s: %v not in enum", path, doc))
 		}
 	}
+	if cv, ok := node["const"]; ok && fmt.Sprint(cv) != fmt.Sprint(doc) {
+		errs = append(errs, fmt.Sprintf("%s: %v is not the constant %v", path, doc, cv))
+	}
 	if p, ok := node["pattern"].(string); ok {
 		if s, ok := doc.(string); ok {
 			if re, err := regexp.Compile(p); err == nil && !re.MatchString(s) {
@@ -70,6 +74,13 @@ func validateSchema(root map[string]any, node map[string]any, doc any, path stri
 			for _, r := range req {
 				if _, ok := m[fmt.Sprint(r)]; !ok {
 					errs = append(errs, path+": missing required "+fmt.Sprint(r))
+				}
+			}
+		}
+		if pn, ok := node["propertyNames"].(map[string]any); ok {
+			for k := range m {
+				for _, e := range validateSchema(root, pn, k, path+"."+k+" (key)") {
+					errs = append(errs, e)
 				}
 			}
 		}
@@ -155,6 +166,7 @@ func runC17(c *Ctx) error {
 	}
 	fam2 := c.Rep.Family("accepts-implies-validates", fmt.Sprintf("exhaustive: for every key path of the reflected tree (%d) the minimal document (documented-required keys present) with a typed leaf, and for every enumerated setting every value the code accepts (entry types, deb/rpm compression incl. algorithm:level, signature method/type, version schema): the strict parser must accept it and the emitted schema must validate its JSON form; the same documents with an unknown key injected at every object level (parser and schema must both reject); then random larger documents; non-trivial = more than the required keys", len(order)))
 	fam2.Exhaustive = true
+	var accepted []string // JSON forms of the documents parser and harness validator both accept (second opinion below)
 	check := func(doc map[string]any, label string) {
 		yb, _ := yaml.Marshal(doc)
 		_, perr := nfpm.ParseWithEnvMapping(bytes.NewReader(yb), func(string) string { return "" })
@@ -162,6 +174,9 @@ func runC17(c *Ctx) error {
 		var jd any
 		_ = json.Unmarshal(jb, &jd)
 		verrs := validateSchema(root, root, jd, "$")
+		if perr == nil && len(verrs) == 0 {
+			accepted = append(accepted, string(jb))
+		}
 		fam2.Eval(label+string(jb), len(doc) > 3)
 		if perr == nil && len(verrs) > 0 {
 			c.Rep.Find(report.Finding{Property: "C17", Family: "accepts-implies-validates", Shape: "schema-rejects-accepted-document:" + strings.SplitN(strings.SplitN(verrs[0], ": ", 2)[1], " ", 3)[0],
@@ -257,6 +272,36 @@ func runC17(c *Ctx) error {
 	}
 	fam2.Distribution["schema-key-paths"] = len(sk)
 	fam2.Distribution["schema-key-paths-unknown-to-parser"] = famS
+	// the emitted schema must not use a keyword the harness validator does not interpret: the check could no longer decide
+	unk := map[string]bool{}
+	c17UnknownKeywords(root, false, unk)
+	if len(unk) > 0 {
+		var ks []string
+		for k := range unk {
+			ks = append(ks, k)
+		}
+		sort.Strings(ks)
+		c.Rep.Disagree(report.Disagreement{Family: "accepts-implies-validates", What: "the emitted schema uses keywords the harness validator does not interpret", Input: map[string]any{"keywords": ks},
+			Model: "type/properties/additionalProperties/required/items/enum/pattern/propertyNames/const", Impl: strings.Join(ks, ",")})
+	}
+	// second opinion on every accepted document: a full JSON-Schema implementation (python jsonschema), one process
+	if py, err := exec.LookPath("python3-vt"); err == nil && len(accepted) > 0 {
+		docsFile := filepath.Join(c.Tmp, "c17-accepted.jsonl")
+		_ = os.WriteFile(docsFile, []byte(strings.Join(accepted, "\n")+"\n"), 0o644)
+		script := "import json,sys,jsonschema\ns=json.load(open(sys.argv[1]))\nv=jsonschema.validators.validator_for(s)(s)\nfor i,l in enumerate(open(sys.argv[2])):\n  e=sorted(v.iter_errors(json.loads(l)),key=str)\n  if e: print(i, e[0].message[:200].replace(chr(10),' '))\n"
+		out, err := exec.Command(py, "-c", script, outFile, docsFile).CombinedOutput()
+		fam2.Distribution["documents-revalidated-with-python-jsonschema"] = len(accepted)
+		if err != nil {
+			c.Rep.Note("python jsonschema second opinion failed: %v: %.300s", err, out)
+		}
+		for _, line := range strings.Split(strings.TrimSpace(string(out)), "\n") {
+			var idx int
+			if n, _ := fmt.Sscanf(line, "%d", &idx); n == 1 && idx >= 0 && idx < len(accepted) && err == nil {
+				c.Rep.Find(report.Finding{Property: "C17", Family: "accepts-implies-validates", Shape: "schema-rejects-accepted-document:second-opinion",
+					What: "the strict parser accepts the document but the emitted schema rejects it (python jsonschema): " + line, Input: map[string]any{"document_json": accepted[idx]}})
+			}
+		}
+	}
 	// cross-check of the harness validator with python jsonschema when installed
 	if py, err := exec.LookPath("python3-vt"); err == nil {
 		doc := map[string]any{"name": "p", "arch": "amd64", "version": "1.0.0", "deb": map[string]any{"compression": "bogus"}}
@@ -269,6 +314,29 @@ func runC17(c *Ctx) error {
 		}
 	}
 	return nil
+}
+
+// c17Keywords are the JSON-Schema keywords validateSchema interprets (or that carry no constraint).
+var c17Keywords = map[string]bool{"$schema": true, "$id": true, "$ref": true, "$defs": true, "type": true, "properties": true,
+	"additionalProperties": true, "required": true, "items": true, "enum": true, "pattern": true, "propertyNames": true, "const": true,
+	"title": true, "description": true, "default": true, "examples": true, "format": true}
+
+// c17UnknownKeywords walks the emitted schema and returns every keyword outside c17Keywords.
+func c17UnknownKeywords(node any, inProps bool, out map[string]bool) {
+	switch x := node.(type) {
+	case map[string]any:
+		for k, v := range x {
+			if !inProps && !c17Keywords[k] {
+				out[k] = true
+			}
+			// the children of "properties" / "$defs" are names, not keywords
+			c17UnknownKeywords(v, !inProps && (k == "properties" || k == "$defs"), out)
+		}
+	case []any:
+		for _, v := range x {
+			c17UnknownKeywords(v, false, out)
+		}
+	}
 }
 
 // c17SchemaPaths lists the key paths of the emitted schema in the notation of the reflected key tree
